@@ -139,7 +139,7 @@ def op_gflux_wall(rng):
     dt = 0.2 * dx / (cs * (1 + abs(mach))) * rng.choice([1.0, 1.0, 0.01, 30.0])
     cell = L + G + cons + [0.0] * 5
     kind = "wall-receding" if mach < 0 else "wall-M<1.15" if mach < 1.15 else ("wall-M1.15-1.45" if mach < 1.45 else ("wall-M1.45-1.5" if mach < 1.5 else ("wall-M>1.5" if mach > 0 else "wall-receding")))
-    return "gflux %s %d %s %s %s %s" % (b(g), i, b(sgn * dx), b(A), b(dt), " ".join(b(x) for x in cell)), kind
+    return "gflux r %s %d %s %s %s %s" % (b(g), i, b(sgn * dx), b(A), b(dt), " ".join(b(x) for x in cell)), kind
 
 
 def op_gflux(rng):
@@ -149,7 +149,8 @@ def op_gflux(rng):
     if L[0] == 0.0 and rng.random() < 0.7:
         L = R
     sdx = dx if rng.random() < 0.5 else -dx
-    return "gflux %s %d %s %s %s %s" % (b(g), i, b(sdx), b(A), b(dt), " ".join(b(x) for x in L)), kind
+    bk = rng.choice("rrioo")
+    return "gflux %s %s %d %s %s %s %s" % (bk, b(g), i, b(sdx), b(A), b(dt), " ".join(b(x) for x in L)), kind + "-" + bk
 
 
 def rand_lim(rng, cell, other):
@@ -167,7 +168,7 @@ def op_grad(rng, ghost):
     g, i, dx, A, dt, L, R, kind = gen_cell_pair(rng)
     dxinv = 1.0 / dx if (not ghost or rng.random() < 0.5) else -1.0 / dx
     if ghost:
-        return "ggrad %d %s %s %s" % (i, b(dxinv), " ".join(b(x) for x in L), " ".join(b(x) for x in rand_lim(rng, L, R))), kind
+        return "ggrad %s %d %s %s %s" % (rng.choice("rio"), i, b(dxinv), " ".join(b(x) for x in L), " ".join(b(x) for x in rand_lim(rng, L, R))), kind
     return "grad %d %s %s %s %s %s" % (i, b(dxinv), " ".join(b(x) for x in L), " ".join(b(x) for x in rand_lim(rng, L, R)),
                                         " ".join(b(x) for x in R), " ".join(b(x) for x in rand_lim(rng, R, L))), kind
 
@@ -256,6 +257,17 @@ def op_pred(rng):
     return "pred %s %s %s %s %s" % (b(g), b(dt), " ".join(b(x) for x in W), " ".join(b(x) for x in grad), " ".join(b(x) for x in acc)), kind
 
 
+def op_tstep(rng):
+    g = rng.choice(GAMMAS) if rng.random() < 0.8 else rng.uniform(1.01, 2.0)
+    W = rand_prim(rng, logu(rng, -28, 2), logu(rng, -22, 5), g, rng.choice([0.0, 0.3, 3.0]))
+    kind = rng.choice(["plain", "plain", "plain", "empty", "at-rest"])
+    if kind == "empty":
+        W[0] = 0.0
+    elif kind == "at-rest":
+        W[1:4] = [0.0, 0.0, 0.0]
+    return "tstep %s %s %s" % (b(g), b(logu(rng, -9, 9)), " ".join(b(x) for x in W)), kind
+
+
 def op_ucons(rng):
     g = rng.choice(GAMMAS)
     vol = logu(rng, -6, 6)
@@ -305,7 +317,7 @@ def op_uprim(rng):
 def cell_ops(ctx, n):
     ops = []
     gens = [(op_flux, 0.26), (op_gflux, 0.14), (lambda r: op_grad(r, False), 0.08), (lambda r: op_grad(r, True), 0.05),
-            (op_lim, 0.12), (op_ucons, 0.09), (op_uprim, 0.09), (op_slim, 0.09), (op_pred, 0.08)]
+            (op_lim, 0.12), (op_ucons, 0.09), (op_uprim, 0.09), (op_slim, 0.08), (op_pred, 0.07), (op_tstep, 0.02)]
     for _ in range(n):
         x = ctx.rng.random()
         for gfn, p in gens:
@@ -714,7 +726,10 @@ def pick_config(ctx, max_cells):
     cfl = rng.choice([None] * 6 + [0.9, 2.5, 6.0])
     if kind == "wallflow":
         cfl = 0.05          # small half-step prediction: the bound on the reconstructed wall Mach number stays tight
-    return dict(layout=layout, cells=cells, per=per, g=g, kind=kind, threads=threads, box=box, cfl=cfl)
+    # the box boundaries on the non-periodic axes: mostly reflecting walls (the property's clause), sometimes inflow /
+    # outflow boundaries (no conservation claim there: per-call log, non-negativity and finiteness only)
+    boundary = "reflective" if (kind == "wallflow" or all(per)) else rng.choice(["reflective"] * 4 + ["inflow", "outflow"])
+    return dict(layout=layout, cells=cells, per=per, g=g, kind=kind, threads=threads, box=box, cfl=cfl, boundary=boundary)
 
 
 def python_grid_faces(ncell, per):
@@ -914,7 +929,7 @@ def check_run(ctx, cfg, res, model, stream):
             wm = wall_mach(step["dump"][0], coords, ncell, per, g, dt=t0["dt"], box=cfg["box"]) if (coords is not None and step["dump"][0]) else 9.9
             # wm bounds the reconstructed wall Mach number from above (see wall_mach); the property promises
             # conservation below 1.5
-            walls_ok = wm < 1.45
+            walls_ok = wm < 1.45 and cfg.get("boundary", "reflective") == "reflective"
         ctx.branch("periodic-box" if all(per) else ("walls-subsonic" if walls_ok else "walls-supersonic"))
         clamp = t1["mins"][0] <= 0.0 or t1["mins"][1] <= 0.0
         ctx.branch("clamp-fired" if clamp else "no-clamp")
@@ -1037,9 +1052,10 @@ def do_runs(ctx, nruns, max_cells, steps_choices=(1, 2, 3)):
         ncell = [cfg["layout"][a] * cfg["cells"][a] for a in range(3)]
         cfg["states"] = initial_state(ctx.rng, ncell, cfg["kind"], cfg["g"], cfg["per"])
         cfg["steps"] = ctx.rng.choice(steps_choices)
-        res = run_hydro(binary, cfg["layout"], cfg["per"], cfg["cells"], cfg["g"], cfg["states"], cfg["threads"], steps=cfg["steps"], box=cfg["box"], cfl=cfg["cfl"])
+        res = run_hydro(binary, cfg["layout"], cfg["per"], cfg["cells"], cfg["g"], cfg["states"], cfg["threads"], steps=cfg["steps"], box=cfg["box"], cfl=cfg["cfl"], boundary=cfg.get("boundary", "reflective"))
         model = model_lists(drv, cfg["layout"], cfg["per"], cfg["cells"])
         ctx.count()
+        ctx.branch("boundary-" + cfg.get("boundary", "reflective"))
         ctx.branch("cfl-default" if cfg["cfl"] is None else ("cfl-0.9" if cfg["cfl"] < 1 else "cfl-overdriven"))
         ctx.distinct((cfg["layout"], cfg["cells"], cfg["per"], cfg["kind"], cfg["threads"]), nontrivial=(cfg["layout"] != (1, 1, 1)))
         ctx.branch("init-" + cfg["kind"])
@@ -1065,7 +1081,9 @@ def run(ctx):
         "slope limiter, per-face limiter, face reconstruction and half-step prediction are modelled statement by statement (bit-exact at Float level); the conservation / layout / schedule theorems hold for any per-cell limiter and prediction and are instantiated with them (…_code theorems)",
         "limiter_bounds needs `neighbour minimum <= neighbour maximum` (true once one gradient call has touched the cell); at a local extremum the code's alpha is negative and face values may lie beyond the extremum (theorem limiter_overshoots_local_extremum) - non-negativity of the face densities/pressures comes from Hydro::limit, not from the slope limiter",
         "the predicted density/pressure are only non-negative thanks to the clamps (theorem predict_needs_clamp); how often the clamp acts on generated states is reported in coverage.predict_clamp_by_kind",
-        "other boundary types (inflow, outflow, Bondi) are not modelled",
+        "boundaries: periodic, reflective, inflow and outflow are modelled (ghost states of HydroBoundary.hpp, bit-exact at Float level); the Bondi boundary (analytic profile) is not; conservation is only claimed (and asserted on runs) for periodic and reflective boxes",
+        "the hypotheses `no pending changes at the start of a step` and `neighbour minimum <= neighbour maximum` are theorems now (step_resets_accumulators, limiter_premise_holds); `no gravity, no energy source` is about the configuration (pure hydro runs) and `no clamp fires` is evaluated on every run",
+        "the time step is the code's: Hydro::get_timestep is modelled (std::cbrt as pow(.,1/3): compared with tolerance, so the bit-exact rate is slightly below 1) and theorem cfl_does_not_keep_mass_nonneg shows that for flat cells it does not keep the masses non-negative (the clamp then creates mass; observed on the real binary for cells 1 x 1 x 0.001)",
         "conservation under concurrency rests on `every task locks every subgrid it writes`: checked on the dumped task table of every traced run (oracle tasks:lock-set-does-not-cover-footprint, and against C07's Lean lockset), and searched by untraced 4/8/16-thread runs under scheduling jitter whose final totals must equal the one-thread run and the initial totals",
     ]
     ok = ctx.obligations("CMacVerif.Props.C04", ["drv_c04", "drv_c07"])
@@ -1073,7 +1091,7 @@ def run(ctx):
     drv = vlib.driver("drv_c04")
     ctx.cov["tolerance"] = {"cell_level_relative": TOL_CELL, "totals_relative_per_face": TOL_TOTAL}
     ctx.cov["rule"] = ("cell level: generated state pairs (smooth / jump / identical / vacuum / near-vacuum / ties, limiter-firing cells, 28 decades of density) through "
-                       "Hydro::limit, do_flux_calculation, do_ghost_flux_calculation, do_(ghost_)gradient_calculation, update_conserved_variables, set_primitive_variables, apply_slope_limiter, predict_primitive_variables vs the Float model; "
+                       "Hydro::limit, do_flux_calculation, do_ghost_flux_calculation, do_(ghost_)gradient_calculation, update_conserved_variables, set_primitive_variables, apply_slope_limiter, predict_primitive_variables, get_timestep, ghost calls with reflective / inflow / outflow boundaries vs the Float model; "
                        "runs: real pure-hydro steps of the hooked binary on random layouts (1..3 subgrids/axis, 2..6 cells/subgrid, periodic / reflective / mixed, 1/2/4/8 threads, "
                        "smooth / jump / blast / near-vacuum / random / supersonic initial states, CFL factor 0.2 (default), 0.9 and overdriven 2.5 / 6 to make the positivity clamps fire): per-call log vs the Lean sweep lists, faces-exactly-once, totals, non-negativity, finiteness; "
                        "distinct = (layout, cells, periodicity, kind, threads); non-trivial = more than one subgrid")
@@ -1144,7 +1162,7 @@ def replay(ctx, path):
     cfg["states"] = {tuple(k): (v[0], v[1], v[2]) for k, v in obj["states"]}
     binary = vlib.full_binary()
     vlib.lake_build(["drv_c04"])
-    res = run_hydro(binary, cfg["layout"], cfg["per"], cfg["cells"], cfg["g"], cfg["states"], cfg["threads"], steps=cfg.get("steps", 1), box=cfg["box"], cfl=cfg.get("cfl"))
+    res = run_hydro(binary, cfg["layout"], cfg["per"], cfg["cells"], cfg["g"], cfg["states"], cfg["threads"], steps=cfg.get("steps", 1), box=cfg["box"], cfl=cfg.get("cfl"), boundary=cfg.get("boundary", "reflective"))
     model = model_lists(vlib.driver("drv_c04"), cfg["layout"], cfg["per"], cfg["cells"])
     before = len(ctx.violations)
     check_run(ctx, cfg, res, model, "replay")
@@ -1157,6 +1175,6 @@ def replay(ctx, path):
 
 MANIFEST = dict(
     category="proof",
-    text="Lean theorems, for EVERY subgrid layout nx x ny x nz, every number of cells per subgrid (>= 1 per axis), every periodicity: the internal sweeps and the pair sweeps of all subgrids together visit every face of the global cell grid exactly once (permutation of the plain list of faces), the boundary sweeps every box-boundary face exactly once; one face subtracts F from the left and adds the same F to the right cell, F = one common factor in [0,1] times area times the Riemann flux (the limiter's use of the left momentum in the right-cell test does not matter); hence in a periodic box the sums of mass, momentum and energy over all cells do not change in a step as long as no positivity clamp fires, for ANY flux function, any dt, any state; at a reflective wall the mirror ghost state gives zero mass and energy flux when the reconstructed normal velocity is below 1.5 c_s (C05's HLLC model); after the clamps mass, energy, density, pressure are >= 0; the reconstruction is modelled too: after apply_slope_limiter every extrapolation to a face is at most half the smaller distance of the cell value to the neighbour minimum / maximum (inside the neighbour range when the cell value is; beyond a local extremum otherwise: proved counterexample), Hydro::limit clips the face value to an interval that never passes 3/4 of the way to the other cell and returns a non-negative value for non-negative cells (so the face clamps never act), predict_primitive_variables keeps density and pressure >= 0 only through its clamps (proved counterexample without). Tied to the code by bit-level agreement of the Float model with Hydro::limit / do_flux_calculation / do_ghost_flux_calculation / gradient calls / apply_slope_limiter / predict_primitive_variables / update_conserved_variables / set_primitive_variables, by the per-call log (addresses of the states actually passed) of real multi-thread steps against the Lean sweep lists, and by the conservation / non-negativity / finiteness oracles on the real runs.",
+    text="Lean theorems, for EVERY subgrid layout nx x ny x nz, every number of cells per subgrid (>= 1 per axis), every periodicity: the internal sweeps and the pair sweeps of all subgrids together visit every face of the global cell grid exactly once (permutation of the plain list of faces), the boundary sweeps every box-boundary face exactly once; one face subtracts F from the left and adds the same F to the right cell, F = one common factor in [0,1] times area times the Riemann flux (the limiter's use of the left momentum in the right-cell test does not matter); hence in a periodic box the sums of mass, momentum and energy over all cells do not change in a step as long as no positivity clamp fires, for ANY flux function, any dt, any state; at a reflective wall the mirror ghost state gives zero mass and energy flux when the reconstructed normal velocity is below 1.5 c_s (C05's HLLC model); after the clamps mass, energy, density, pressure are >= 0; the reconstruction is modelled too: after apply_slope_limiter every extrapolation to a face is at most half the smaller distance of the cell value to the neighbour minimum / maximum (inside the neighbour range when the cell value is; beyond a local extremum otherwise: proved counterexample), Hydro::limit clips the face value to an interval that never passes 3/4 of the way to the other cell and returns a non-negative value for non-negative cells (so the face clamps never act), predict_primitive_variables keeps density and pressure >= 0 only through its clamps (proved counterexample without); inflow / outflow ghost states are modelled (copy of the cell; reversed normal velocity for gas entering through an outflow boundary); the start-of-step hypotheses are re-established by every step (conservation over any number of steps) and the limiter premise holds after the gradient sweeps of any layout; the code's time step (get_timestep, volume-based) does NOT keep masses non-negative for flat cells: proved counterexample, the clamp then creates mass. Tied to the code by bit-level agreement of the Float model with Hydro::limit / do_flux_calculation / do_ghost_flux_calculation / gradient calls / apply_slope_limiter / predict_primitive_variables / update_conserved_variables / set_primitive_variables, by the per-call log (addresses of the states actually passed) of real multi-thread steps against the Lean sweep lists, and by the conservation / non-negativity / finiteness oracles on the real runs.",
     note="Trusted: Lean kernel + 3 axioms; hand model of the sweeps and of Hydro.hpp (bit-exact on all generated cases); exact real arithmetic in the theorems (round-off bounded empirically: 1e-12 x number of faces on the totals); finiteness only searched; CFL step taken from the code; only periodic and reflective boundaries; gamma > 1 branch of set_primitive_variables.",
     technique="Lean 4 proof (permutation of face lists for all layouts; algebraic conservation over an uninterpreted flux; HLLC mirror lemma of C05 for walls) + Float-model differential testing of the real cell-level functions + trace/oracle checks on runs of the real hooked binary")
